@@ -151,6 +151,9 @@ def run_side(rep, fx, S):
                         guards.append((s_, t_))
                     if cond[0] == 'discr' and lab == 'Some' and cond[1][0] == 'call' and cond[1][1].endswith('::remove') and has_field(cond[1], S['map']):
                         guards.append((s_, t_))
+                    if cond[0] == 'call' and cond[1].endswith(('Option::is_some', 'Option::is_none')) and lab is cond[1].endswith('is_some') \
+                            and cond[2][0][0] == 'call' and cond[2][0][1].endswith('::remove') and has_field(cond[2][0], S['map']):
+                        guards.append((s_, t_))
                 ok_g = bool(guards) and P.every_path_passes(None, (bb, si), via_edges=guards, from_entry=True)
                 rep.check(ok_g, 'R11.2', '%s/status#%d/only-if-removed' % (b.key, n_st), 'unmatch status only when the removed key was in the map',
                           'an unmatch (%s, -1) status can be sent for an endpoint that was not in %s (guard is not a membership test of the removed key): '
